@@ -246,10 +246,38 @@ def run_explore(shard, mon, S, p):
     rng = env.rng("C14", shard["_name"])
     traces = set()
     budget = sz["budget"] if gran == "line" else max(2000, sz["budget"] // 3)
-    order = sorted(shard["pairs"], key=lambda x: 0 if x[0].startswith(("multi", "algo-unknown")) else 1 if x[0].startswith(("algo", "natb")) else 2 if x[0].startswith("shared") else 3 if x[0].startswith(("api", "nat")) else 4)
+    def prio(x):
+        return 0 if x[0].startswith(("multi", "algo-unknown", "shared:", "natb")) else 1 if x[0].startswith("algo") else 2 if x[0].startswith("shared") else 3 if x[0].startswith(("api", "nat")) else 4
+
+    classes: dict = {}
+    seen_in_group: dict = {}
+    ranked = []
+    for pr_ in shard["pairs"]:
+        seen_in_group[pr_[0]] = seen_in_group.get(pr_[0], 0) + 1
+        ranked.append((seen_in_group[pr_[0]], pr_))
+    # within a class: the first pair of every group, then the second of every group, ... (a group's first pairs
+    # are the ones chosen to differ in behaviour class)
+    for _, pr_ in sorted(ranked, key=lambda t: t[0]):
+        classes.setdefault(prio(pr_), []).append(pr_)
+    # class 0 first; the other classes take turns (3 : 1 : 1 : 1) so that a tight budget thins all of them out
+    # instead of starving the last ones
+    # class 0 is always explored; the other classes get shares of the schedule budget (what a class leaves unused
+    # goes to the next one, the long generic pairs come last)
+    order = [(0, x) for x in classes.pop(0, [])]
+    for c_ in (1, 3, 2, 4):
+        order += [(c_, x) for x in classes.pop(c_, [])]
+    share = {1: 0.62, 3: 0.12, 2: 0.08, 4: 0.18}
+    spent: dict = {}
+    ceiling: dict = {}
+    acc = 0.0
+    for c_ in (1, 3, 2, 4):
+        acc += share[c_]
+        ceiling[c_] = acc * budget  # cumulative: unused budget of earlier classes flows on
     try:
-        for name, a, b in order:
-            if mon.evaluations >= budget:
+        for cls_, (name, a, b) in order:
+            if cls_ and 0 not in spent:
+                spent[0] = mon.evaluations  # what the always-explored class used does not count against the shares
+            if cls_ and mon.evaluations >= ceiling[cls_] + spent.get(0, 0):
                 mon.tally("pairs_skipped_budget")
                 continue
             thunks = [lambda a=a: calls.execute(S, p[a]), lambda b=b: calls.execute(S, p[b])]
@@ -281,6 +309,20 @@ def run_explore(shard, mon, S, p):
             judge_run(base, {"first": 0, "preempt": []})
             mon.distinct((a, b, gran, 0, ()))
             cap = 200 if shard["tier"] == "quick" else 3000
+            focused = gran == "line" and shard["tier"] == "quick" and name.startswith(("natb", "nat:", "api:"))
+            if focused:
+                # calls that reach a checksum algorithm through BBAN / IBAN objects (hundreds of lines each): in the
+                # quick tier every preemption point *inside the checksum modules* is taken, the others are left to the
+                # thorough tier (the look-up and parsing code on the way is shared with the pair families above)
+                fb_ = sched.run(thunks, first=0, focus="/checksum/")
+                for first, n_f in ((0, fb_["focus_steps"][0]), (1, fb_["focus_steps"][1])):
+                    for k in range(1, n_f + 1):
+                        r = sched.run(thunks, first=first, focus="/checksum/", preempt_focus={(first, k)}, trace=True)
+                        judge_run(r, {"first": first, "preempt_at_step_inside_checksum_modules": [[first, k]]})
+                        mon.distinct((a, b, gran, first, ("focus", k)))
+                mon.tally("pairs_explored_inside_checksum_modules_only")
+                mon.tally("pairs_explored_" + gran)
+                continue
             for first, n_first in ((0, na), (1, nb)):
                 ks = range(1, n_first + 1)
                 if n_first > cap:
